@@ -488,6 +488,16 @@ class Body:
                 t = (ek, t)
         return t
 
+    def local_ty_of_upvar(self, k):
+        """type of captured variable number k of a closure body (from its debug info), references and regions stripped"""
+        for dv in self.f.get("debug", []):
+            v = dv.get("val") or {}
+            if v.get("l") == 1:
+                fl = [e for e in v.get("p", []) if e.get("k") == "field"]
+                if len(fl) == 1 and fl[0].get("i") == k:
+                    return fl[0].get("ty", "").replace("&'{erased} ", "&").replace("&mut ", "&")
+        return None
+
     def is_stable_local(self, l):
         """a non-parameter local assigned exactly once, as a whole, and never mutably borrowed"""
         ds = self.defs.get(l, [])
